@@ -10,10 +10,11 @@ COMPS = [
     # UDP server (model Bng.AcctBackoff); correspondence only, the monitors judge component acct
     V.Component("acctretry", kind="gotest", monitors=[]),
 ]
-LEVEL = ("Theorems over a small-step model of radius.AccountingManager with TWO program counters: every API call "
-         "(StartSession, StopSession, interim, Stop(), recovery) and every step of the background processor is split at each "
-         "transmit/persist/remove point of the Go code (the verifCrashPoint markers), processor steps interleave with the "
-         "API call in progress, the RADIUS server's answer (accepted+acknowledged | not received | accepted but the client "
+LEVEL = ("Theorems over a small-step model of radius.AccountingManager with THREE program counters (API call, background "
+         "processor, interim goroutine): every API call (StartSession, StopSession, Stop(), recovery), every step of the "
+         "processor and every interim update is split at each transmit/persist/remove point of the Go code (the "
+         "verifCrashPoint markers), processor steps and interim updates interleave with the API call in progress (in "
+         "particular StopSession may complete between an interim update's send and its acknowledgement), the RADIUS server's answer (accepted+acknowledged | not received | accepted but the client "
          "sees a failure) is a parameter of every transmitting step, and `crash`/`crashTorn` (crash in the middle of a file "
          "write) may follow any step: the theorems quantify over ALL histories, answer vectors, interleavings and crash points. "
          "The model is tied to the real code by differential execution against a real UDP RADIUS server on loopback (marker "
@@ -23,11 +24,15 @@ LEVEL = ("Theorems over a small-step model of radius.AccountingManager with TWO 
          "retry budget) is a second model (Bng.AcctBackoff) run against the real code under a virtual clock.")
 ASSUME = [
     "the harness interleaves WHOLE processor steps (deq / retry, themselves split at their markers 7/8) at the markers "
-    "1-6, 17, 9, 19, 12 of an API call; the model is finer (any ptick between any two ticks). Goroutine preemption inside "
-    "a marker-free region is not exercised; the Go race detector is not part of this check",
+    "1-6, 17, 9, 19, 12 of an API call, and a WHOLE StopSession call at the marker of an interim update in flight "
+    "(`@17:stop:...`: the update is parked in front of its send, i.e. it reaches the server after the Stop); the model is "
+    "finer (any ptick/itick between any two ticks). A reply held back by the server while other calls run, and goroutine "
+    "preemption inside a marker-free region, are not exercised; the Go race detector is not part of this check",
     "the main model has no time: `retry` retries every record of the map (component acct configures 1 ns delays so that "
     "all are due). Time is covered by component acctretry only for single-thread schedules (no crash, no interleaving); "
-    "the interim ticker is one due session per `interim` op",
+    "the interim ticker is one due session per `interim` op (the loop over several due sessions in one pass is not modelled); "
+    "the acknowledged counters are written to the session object the goroutine captured, which the model identifies with the "
+    "session registered under that id (ids are not reused)",
     "answer `down` = the client returns an error at once (closed port, ECONNREFUSED); answer `lost` = the server records "
     "the request and the client gets an error (generated sequences: the server answers from a refused socket state; "
     "true silence until the client's timeout is exercised in the corpus only, with a 25 ms timeout)",
